@@ -59,10 +59,10 @@ def gen(rng, tier, n):
                                 {"k": "map", "key": "string", "e": {"k": "named", "name": nm}}, {"k": "named", "name": "Twice"}])
         elif r < 0.17:
             # the declared two-level embedding of the bank: an override for the innermost (or the middle) embedded type
-            t = {"k": "named", "name": rng.choice(["DocT", "DocP", "BaseT"])}
+            t = {"k": "named", "name": rng.choice(["DocT", "DocP", "BaseT", "TwoEmb", "TwoEmbDeep"])}
             if rng.random() < 0.3:
                 t = {"k": rng.choice(["slice", "ptr"]), "e": t}
-            opts["typeSchemas"] = [{"name": rng.choice(["IDt", "IDt", "BaseT"]), "schema": rng.choice(TS_EMBED_POOL)}]
+            opts["typeSchemas"] = [{"name": rng.choice(["IDt", "IDt", "BaseT", "TwoEmb"]), "schema": rng.choice(TS_EMBED_POOL)}]
         elif r < 0.3 and gt.GEN["embedding"]:
             # a TypeSchemas override for a type that is embedded (directly or two levels down) in the type under inference
             outer = rng.choice(sorted(gt.GEN["embedding"]))
@@ -140,7 +140,10 @@ def judge(o, go, m):
                 return "known:" + k, str(go.get("resolve_detail"))
             return "violation", "Resolve refuses the schema inferred for %s: %s" % (go.get("gotype"), go.get("resolve_detail"))
         if go.get("full_keys") is not None and not (feats & {"string-option", "ptr-marshaler-by-value", "bigint", "unsupported", "badkey"}):
-            order, full = go.get("order") or [], go.get("full_keys") or []
+            never = set(go.get("never_emitted") or [])      # omitempty on [0]T: listed by For (optional), never emitted by encoding/json
+            order, full = [x for x in (go.get("order") or []) if x not in never], go.get("full_keys") or []
+            if never:
+                go = dict(go, properties=[x for x in (go.get("properties") or []) if x not in never])
             bad = None
             if order != full:
                 bad = "property order %r, encoding/json emits %r" % (order, full)
